@@ -21,6 +21,10 @@ def check_strict_verify(v, r, what='verify'):
         return out, None
     if k == 'DONTCARE':
         return out, 'dontcare'
+    if getattr(v, 'bad_refs', None) and r[0] == 'GE' and r[1] == 'ManifestMismatch' and r[2].path in v.bad_refs:
+        # true mismatch of a Manifest file against an entry held for it; whether it surfaces at load time or later
+        # depends on what the loader had loaded before
+        return out, 'wrong-second-manifest-reference'
     if k == 'OK':
         if r[0] == 'ok' and r[1] is True:
             return out, None
@@ -32,6 +36,10 @@ def check_strict_verify(v, r, what='verify'):
                         sig='%s:%s' % (r[0], r[1] if r[0] != 'ok' else r[1])))
         return out, None
     if r[0] == 'ok':
+        if k == 'CHAIN' and v.chain and all(c in getattr(v, 'partial', ()) for c in v.chain):
+            # the statement accepts a sub-Manifest that matched the entry of AN accepted parent; gemato additionally
+            # compares a second parent's entry only when both arrive in the same loading pass of one loader
+            return out, 'sub-manifest-matches-one-parent-entry-not-another'
         if r[1] is True or r[1] is None:
             out.append(viol('verify.false-success',
                             '%s: model says %s %s but gemato returned success' % (
@@ -64,6 +72,8 @@ def check_strict_verify(v, r, what='verify'):
     if k == 'CHAIN':
         if r[0] == 'GE' and r[1] == 'ManifestMismatch' and r[2].path in v.chain:
             return out, None
+        if r[0] == 'GE' and r[1] == 'ManifestMismatch' and r[2].path in getattr(v, 'bad_refs', ()):
+            return out, 'wrong-second-manifest-reference'
         if 'registered-manifest-unparseable' in v.zones and r[0] in ('GE', 'CODEC', 'DECODE'):
             return out, 'registered-manifest-unparseable'
         if 'manifest-beneath-file' in v.zones and r[0] == 'OS' and r[1] == 'ENOTDIR':
